@@ -367,6 +367,21 @@ HAND_TEXTS = [
 ]
 
 
+HAND_DICTS = [
+    # an entry without id two levels below the top becomes an unchecked inner root
+    {"entity": "a", "id": 1, "daughters": [{"entity": "b", "id": 2, "daughters": [
+        {"entity": "r", "daughters": [{"entity": "c", "id": 3, "form": "x"}]}]}]},
+    # … one level below the top it is rejected by the constructor check
+    {"entity": "a", "id": 1, "daughters": [{"entity": "r", "daughters": [{"entity": "c", "id": 3, "form": "x"}]}]},
+    {"entity": "r", "daughters": [{"entity": "c", "id": 3, "form": "x"}]},
+    {"entity": "r", "form": "x"},
+    {"id": 1, "form": "x"},
+    {"entity": "a", "id": 1},
+    {"entity": "a", "id": 1, "daughters": []},
+    {"entity": "a", "id": 1, "form": "x", "tokens": [{"id": 1, "tfs": "t"}], "head": True, "type": "ty"},
+]
+
+
 class C16(Check):
     pid = "C16"
     quick_cases = 4000
@@ -397,6 +412,8 @@ class C16(Check):
             yield {"kind": "tree", "tree": t, "indent": INDENTS[i % len(INDENTS)]}
         for s in HAND_TEXTS:
             yield {"kind": "text", "s": cps(s)}
+        for d in HAND_DICTS:
+            yield {"kind": "dict", "d": canon_dict(d)}
         yield from self.random_cases(rng, n)
 
     def random_cases(self, rng, n, kinds=None):
